@@ -28,9 +28,11 @@ FK = gen.FACTOR_KINDS
 
 def _pool(tier):
     L = 5 if tier == "quick" else 8
-    base = [(1, 1, L), (2, 2, L), (3, 1, L), (2, 3, L), (3, 2, L), (4, 1, L), (2, 1, L), (4, 2, L)]
+    base = [(1, 1, L), (2, 2, L), (3, 1, L), (2, 3, L), (3, 2, L), (4, 1, L), (2, 1, L), (4, 2, L),
+            # sizes beyond 16 / 1024 (blocked or chunked algorithms, sorting idioms): batch 20, 1100, dimension 18
+            (2, 20, L), (18, 1, L), (2, 1100, 3)]
     if tier == "thorough":
-        base += [(5, 2, L), (6, 1, L), (3, 4, L), (2, 5, L)]
+        base += [(5, 2, L), (6, 1, L), (3, 4, L), (2, 5, L), (1, 2100, 3), (3, 1500, 3)]
     return base
 
 
@@ -89,6 +91,8 @@ def _history(draw, D0, R0, L):
             objs.append({"pdf": False, "R": 1, "D": o["D"]})
         elif op == "slice":
             idx = draw(gen.index_array(o["R"], 1, 3))
+            if o["R"] > 16:
+                idx = [o["R"] - 1] + idx  # the tail of a large batch
             stp = {"op": op, "i": i, "idx": idx}
             objs.append({"pdf": o["pdf"], "diag": o.get("diag", False), "R": len(idx), "D": o["D"]})
         elif op == "normalize":
@@ -107,8 +111,12 @@ def _history(draw, D0, R0, L):
             conds.append({"kind": "full", "R": o["R"], "Dx": len(dims), "Dy": o["D"] - len(dims)})
             objs.append({"pdf": True, "R": o["R"] * N, "D": o["D"] - len(dims)})
         elif op == "update" and o["pdf"]:
-            k = draw(st.integers(1, o["R"]))
-            uidx = list(draw(st.permutations(list(range(o["R"]))))[:k])
+            if o["R"] > 16:
+                uidx = sorted(set(draw(st.lists(st.integers(0, o["R"] - 1), min_size=1, max_size=3)) + [o["R"] - 1]))
+                k = len(uidx)
+            else:
+                k = draw(st.integers(1, o["R"]))
+                uidx = list(draw(st.permutations(list(range(o["R"]))))[:k])
             # a diagonal density may only be updated with diagonal densities (class precondition)
             nk = "diag_pdf" if o.get("diag") else "pdf"
             stp = {"op": op, "i": i, "uidx": uidx, "nkind": nk, "new": draw(gen.measure_params(nk, k, o["D"], kappa))}
